@@ -299,6 +299,15 @@ def gen_random_simple(rng, k):
 def lattice_face(rng, shape_class=None, sides=None):
     """-> (label, integer ring) of a simple polygon with 3..8 vertices, or None when the draw was not usable."""
     shape_class = shape_class or pick(rng, SHAPE_CLASSES)
+    if shape_class == 'quads':
+        # four-sided faces only: convex quadrilaterals and darts (one reflex vertex)
+        if chance(rng, 0.4):
+            a = int(rng.integers(3, 8))
+            b = int(rng.integers(1, 5))
+            b2 = int(rng.integers(1, 5))
+            c = int(rng.integers(1, a))
+            return 'dart', [(0, 0), (a, -b), (c, 0), (a, b2)]
+        return 'convex4', gen_convex(rng, 4)
     if shape_class == 'convex':
         k = int(sides or rng.integers(3, 9))
         return 'convex%d' % k, gen_convex(rng, k)
